@@ -247,6 +247,9 @@ V("r7-dup-request-only-among-unshared", "C10", "pyteal/compiler/scratchslots.py"
 V("r7-dup-request-sorted-walk-twin", "C10", "pyteal/compiler/scratchslots.py", "    for slot in allSlots:\n        if not slot.isReservedSlot:\n            continue\n\n        # If there are two", "    for slot in sorted(allSlots, key=lambda s: s.id):\n        if not slot.isReservedSlot:\n            continue\n\n        # If there are two", None, "quiet")
 V("r7-slot0-not-reserved-c03", "C03", "pyteal/ast/scratch.py", "            self.id = requestedSlotId\n            self.isReservedSlot = True", "            self.id = requestedSlotId\n            self.isReservedSlot = bool(requestedSlotId)", "R10.2")
 V("r7-acct-field-version-c01", "C01", "pyteal/ast/acct.py", 'TealType.uint64, 8)  # noqa: E221\n    total_num_byte_slice', 'TealType.uint64, 6)  # noqa: E221\n    total_num_byte_slice', "R04.2")
+V("r8-recursive-path-visited-late", "C20", "pyteal/compiler/subroutines.py", "        visited.add(x)\n        loop.append(x)", "        loop.append(x)", "R02.4p")
+V("r8-recursive-path-visited-late-c02", "C02", "pyteal/compiler/subroutines.py", "        visited.add(x)\n        loop.append(x)", "        loop.append(x)", "R02.4p")
+V("r8-recursive-path-twin", "C02", "pyteal/compiler/subroutines.py", "        visited.add(x)\n        loop.append(x)", "        loop.append(x)\n        visited.add(x)", None, "quiet")
 V("slot-requested-range", "C10", "pyteal/ast/scratch.py", "            if requestedSlotId < 0 or requestedSlotId >= NUM_SLOTS:", "            if requestedSlotId < 0 or requestedSlotId > NUM_SLOTS:", "R10.2")
 V("slot-eq-by-id", "C10", "pyteal/ast/scratch.py", "    def __repr__(self):\n        return \"ScratchSlot({})\".format(self.id)", "    def __eq__(self, other):\n        return isinstance(other, ScratchSlot) and self.id == other.id\n\n    def __hash__(self):\n        return hash(self.id)\n\n    def __repr__(self):\n        return \"ScratchSlot({})\".format(self.id)", "R10.2")
 V("validate-memo-block-only", "C17", "pyteal/ir/tealblock.py", "                visitedKey = (id(block), *sorted(slot.id for slot in inUse))", "                visitedKey = (id(block),)", "R17.1")
